@@ -30,7 +30,7 @@ WITNESS = {
     "central_moment": "moments", "central_moments": "moments", "kurtosis": "moments", "skewness": "moments",
 }
 
-HOOK_COMMITS = ["31526a8", "897c241"]
+HOOK_COMMITS = ["31526a8", "897c241", "cafdc7d"]
 ENGINES = [
     {"name": "verus", "path": "/usr/local/bin/verus", "kind_free_text": "deductive verifier (Verus 0.2026.09.13 + Z3) on function bodies extracted mechanically from /repo by tools/extract (syn)",
      "serves_properties": []},
@@ -232,8 +232,10 @@ PROPS.update({
         "technique": "Verus contracts in exact (real) arithmetic on the extracted variance / moment routines (West loop invariant, ring lemmas) + bounded comparison of the real crate with an exact rational oracle under stated forward-error bounds",
         "design_ref": "DESIGN.md 8d (C07)",
         "verus": [("moments", "N")],
+        "kani": {"complete": [], "bounded_quick": ["bounded_cm_coefficients_len1", "bounded_cm_coefficients_len2", "bounded_cm_coefficients_len3", "bounded_cm_coefficients_len4", "bounded_cm_coefficients_len5", "bounded_horner_len0_1"], "bounded_thorough": [],
+                 "bound": "central_moment_coefficients (the function Verus takes with an assumed contract) on every content of an f64 slice of length 1..5 (orders 0..4), NaN and infinities included: coefficient k is bit for bit C(len-1, k) * moments[len-1-k]; horner_method on 0 and 1 coefficients (more symbolic double multiplications do not finish in CBMC)"},
         "enum": [{"name": "moments"}],
-        "assumptions": [A_REAL, A_VERUS, A_EXTRACT, A_ENUM, "A-ND (n-D) iter/zip/mean/sum/map/mapv as stated in shim/realnum.rs", "central_moment_coefficients: assumed contract (iterator chain outside Verus)"],
+        "assumptions": [A_REAL, A_VERUS, A_EXTRACT, A_ENUM, "A-ND (n-D) iter/zip/mean/sum/map/mapv as stated in shim/realnum.rs", "central_moment_coefficients: assumed contract (iterator chain outside Verus), checked bounded by Kani (orders 0..4, every f64 content) and by enum:moments"],
         "assumed_repo_fns": ["src/summary_statistics/means.rs central_moment_coefficients: assumed contract in units/moments.tpl.rs (iterator chain), exercised by enum:moments", "weighted_var_axis / weighted_std_axis: bounded enumeration only"],
         "not_decided": ["the forward-error bound for inputs outside the enumerated ones; f32; weights of mixed sign (the property's sign guarantee is for non-negative weights)"],
         "rule": "one case per (shape, data, weights, ddof) or (shape, data) x layouts; non-trivial = at least 2 elements (and positive total weight for the variance)",
